@@ -5,8 +5,9 @@
      if len != dim * dim { return Err("Spectrum provided is not square") }
      let jsa_mag = amplitudes.map(|j| j.norm());
      let svd = DMatrix::from_row_slice(dim, dim, &jsa_mag).try_svd(false, false, EPSILON, 10_000).ok_or(Err(..))?;
-     let norm_sq = svd.singular_values.norm_squared();
-     let kinv = svd.singular_values.fold(0., |acc, x| acc + x.powi(4));
+     let singular_values = &svd.singular_values / svd.singular_values.max();
+     let norm_sq = singular_values.norm_squared();
+     let kinv = singular_values.fold(0., |acc, x| acc + x.powi(4));
      Ok(norm_sq * norm_sq / kinv) }                                                                            *)
 From Coq Require Import Reals QArith List NArith.
 From SpdVerif Require Import Model.FinSum Model.Hom.
@@ -39,10 +40,20 @@ Definition sv_kinv (n : nat) (sv : nat -> R) : R := rsum n (fun k => (sv k ^ 4)%
 Definition schmidt_of_sv (n : nat) (sv : nat -> R) : R :=
   (sv_norm_squared n sv * sv_norm_squared n sv / sv_kinv n sv)%R.
 
+(* DVector::max of the singular values (dim >= 1 whenever the SVD ran) *)
+Fixpoint sv_max (n : nat) (sv : nat -> R) : R :=
+  match n with
+  | O => 0%R
+  | S O => sv O
+  | S k => Rmax (sv_max k sv) (sv k)
+  end.
+(* the values the power sums are taken over: singular values divided by the largest one *)
+Definition sv_normalised (n : nat) (sv : nat -> R) : nat -> R := fun k => (sv k / sv_max n sv)%R.
+
 Inductive outcome : Type :=
 | ErrNotSquare
 | ErrSvd
-| OkNaN              (* Ok(NaN): norm_sq * norm_sq / kinv with kinv = 0, i.e. 0/0 — all singular values zero *)
+| OkNaN              (* Ok(NaN): the normalisation sigma / max(sigma) is 0/0 — all singular values zero *)
 | OkK (k : R).
 
 (* the element-wise magnitude matrix of a flat complex array *)
@@ -53,7 +64,7 @@ Definition schmidt_number (svd : nat -> (nat -> nat -> R) -> option (nat -> R)) 
     let n := side_of_len (N.of_nat len) in
     match svd n (mag_matrix n a) with
     | None => ErrSvd
-    | Some sv => if Req_EM_T (sv_kinv n sv) 0%R then OkNaN else OkK (schmidt_of_sv n sv)
+    | Some sv => if Req_EM_T (sv_max n sv) 0%R then OkNaN else OkK (schmidt_of_sv n (sv_normalised n sv))
     end
   else ErrNotSquare.
 
